@@ -33,6 +33,8 @@ FIDE_CTCS = [
     [('NOT', ('OR', 'F1')), ('EQUIVALENCE', 'F0', ('AND', 'F0', 'F1', 'F1'))],
     [('IMPLIES', ('OR', 'F0', 'F1', 'F1', 'F0'), ('NOT', 'F1'))],
     [('IMPLIES', 'F0', 'F1'), ('IMPLIES', 'F0', 'F1'), ('OR', ('NOT', 'F0'), 'F1'), ('IMPLIES', 'F0', 'F1')],      # repeated rules
+    [('IMPLIES', 'F1', 'F0'), 'F1', 'F0', ('NOT', 'F1')],      # rules that are a single (positive / negated) literal
+    ['F0'],
 ]
 FIDE_TAG = {'AND': 'conj', 'OR': 'disj', 'NOT': 'not', 'IMPLIES': 'imp', 'EQUIVALENCE': 'eq'}
 
